@@ -41,7 +41,8 @@ META = {
     'rule': ("cases = engines of 3-14 residues (1-3 molecules, random non-cubic boxes, some residues prepositioned, built with "
              "the constructor or from_topology) x random guarded histories of 4-25 operations with interleaved get/force queries; "
              "non-trivial = the history contains a remove of a positioned residue and a force query with at least one residue in "
-             "range; distinct by the full (initial table, history) fingerprint"),
+             "range; distinct by the full (initial table, history) fingerprint"
+             "; directed / added families (waves 10-12): node keys passed as list / tuple / generator / iterator / dict view"),
 }
 
 SCALE = 1000
